@@ -284,6 +284,7 @@ def gen_spec(seed: int, config: str | None = None) -> dict:
         "max_workers": max_workers,
         "cpu_count": cpu_count,
         "container": rng.choice(["list", "list", "list", "tuple", "iterator", "generator"]),
+        "consumer": rng.choice(["stream", "keep"]),
         "pickle": bug.random() < 0.5,
         "pickable": rng.choice(["identity", "identity", "str"]),
         "extra_args": rng.choice([[], [], [1], ["a", 2]]),
@@ -620,6 +621,7 @@ def run(spec: dict, decider: Decider, keep_events: bool = False) -> RunResult:
     )
     viol = None
     got: list[tuple] = []
+    kept: list[tuple] = []
     raised = None
     sink: list = []
     env.fresh_worker_state = spec["knobs"].get("fresh_worker_state", False)
@@ -641,6 +643,8 @@ def run(spec: dict, decider: Decider, keep_events: bool = False) -> RunResult:
                     o = observe(r)
                     sim.log("yield", o[0], o[1], o[2])
                     got.append(o)
+                    if spec.get("consumer") == "keep":
+                        kept.append((r, o))  # a consumer that collects the results and reads them when the loop is over
                     keys = [g[0] for g in got]
                     if len(set(keys)) != len(keys):
                         raise Violation("duplicate", f"payload {o[0]} yielded twice", "dup")
@@ -665,6 +669,13 @@ def run(spec: dict, decider: Decider, keep_events: bool = False) -> RunResult:
                         seq.append(observe(r))
             except Exception as e:  # noqa: BLE001
                 seq_raised = e
+        # a result belongs to the consumer once it has been handed out: it must still say the same when read later
+        for r, o in kept:
+            again = observe(r)
+            if again != o:
+                raise Violation("content", f"payload {o[0]}: result read again after the loop says {again[1:]}, said {o[1:]} when it was yielded", "changed-after-yield")
+        if kept:
+            sim.probe("results_read_again_after_the_loop")
         truth = {p["key"]: expected(spec, p) for p in spec["payloads"]}
         covered = {p["key"] for p in spec["payloads"] if is_captured(spec, p)}
         # a result the (simulated) worker could not pickle: the statement is silent about whether the loop then raises
@@ -855,7 +866,7 @@ COMPONENTS = {
 }
 
 EXPECTED_PROBES = ["refill_happened", "exception_captured", "captured_exception_yielded_first", "captured_exception_yielded_last", "pickle_round_trip", "thread_pool",
-                   "result_could_not_be_pickled", "earlier_run_stopped_by_consumer", "empty_list", "single_task_shortcut", "uncaptured_config"]
+                   "result_could_not_be_pickled", "results_read_again_after_the_loop", "earlier_run_stopped_by_consumer", "empty_list", "single_task_shortcut", "uncaptured_config"]
 
 RULE = ("one case = (spec, schedule): spec generated from the run seed (entry point, pool kind, worker count, 0..12 payloads "
         "each returning or raising (chained / argument-less / unpicklable exceptions, unpicklable or falsy outcomes, deep recursion, raises() that changes while the function runs), raises() declaration, pickable, "
